@@ -350,7 +350,11 @@ def collision_generations(ctx, naming_cases, osets, traces):
             ats = "".join(f'<xs:attribute name="{n}" type="xs:int"/>' for n in names[:2])
             body = f'<xs:element name="root"><xs:complexType><xs:sequence>{els}</xs:sequence>{ats}</xs:complexType></xs:element>'
         else:
-            types = "".join(f'<xs:complexType name="{n}"><xs:sequence><xs:element name="v{i}" type="xs:int"/></xs:sequence></xs:complexType>' for i, n in enumerate(names))
+            # in every second class one member (never the same position) is an ABSTRACT type: whatever the mix of
+            # abstract and concrete members, all members of the class get different names
+            abstract = k % len(names) if k % 2 == 0 else -1
+            types = "".join(f'<xs:complexType name="{n}"{' abstract="true"' if i == abstract else ""}><xs:sequence><xs:element name="v{i}" type="xs:int"/></xs:sequence></xs:complexType>'
+                            for i, n in enumerate(names))
             els = "".join(f'<xs:element name="e{i}" type="t:{n}" minOccurs="0"/>' for i, n in enumerate(names))
             body = types + f'<xs:element name="root"><xs:complexType><xs:sequence>{els}</xs:sequence></xs:complexType></xs:element>'
         xsd = ('<xs:schema xmlns:xs="http://www.w3.org/2001/XMLSchema" targetNamespace="urn:h" xmlns:t="urn:h" elementFormDefault="qualified">' + body + "</xs:schema>")
